@@ -174,7 +174,7 @@ EvReset ==
 
 (* events the protocol model has no action for: judged by the data layer only *)
 EvOther ==
-    /\ E.ev \in {"verify", "hook", "info", "hang", "sign_mut"} \/ (E.ev \in {"sign", "load", "persist"} /\ "k" \notin DOMAIN E)
+    /\ E.ev \in {"verify", "hook", "info", "hang", "sign_mut", "skip"} \/ (E.ev \in {"sign", "load", "persist"} /\ "k" \notin DOMAIN E)
     /\ call.pc = "idle"
     /\ LET j == Judge(E, cache) IN cache' = j.c /\ Advance(j.v \o (IF E.ev = "sign" THEN DetVerdict(E) ELSE <<>>))
     /\ resultOf' = IF E.ev = "sign" THEN RecordResult(E) ELSE resultOf
